@@ -850,7 +850,45 @@ func e2eC19(repo, dir string, vals map[string]string) ([]string, error) {
 	return bad, nil
 }
 
+// e2eC06: an existing function / declared method for a pair is used or reported, never silently bypassed.
+func e2eC06(repo, dir string, vals map[string]string) ([]string, error) {
+	e, err := newE2E(repo, dir)
+	if err != nil {
+		return nil, err
+	}
+	var bad []string
+	types := "type In struct{ Name string }\ntype Out struct{ Name string }\ntype Ctx struct{ Z int }\n"
+	// a declared method / extend function that needs a context the caller does not have
+	e.write("nodecl/in.go", "package nodecl\n\n// goverter:converter\n// goverter:arg:context:regex ^ctx\ntype C interface {\n\tConvert(source []In) []Out\n\tInner(source In, ctxA Ctx) Out\n}\n"+types)
+	if code, _, se := e.run("gen", "./nodecl"); code != 1 || !strings.Contains(se, "context") {
+		bad = append(bad, fmt.Sprintf("declared method for the element pair needs a context the calling method lacks: exit %d, want a diagnostic about the context: %s", code, firstLine(se)))
+	}
+	e.write("noext/in.go", "package noext\n\n// goverter:converter\n// goverter:arg:context:regex ^ctx\n// goverter:extend Ext\ntype C interface {\n\tConvert(source []In) []Out\n}\n"+types+"func Ext(source In, ctxA Ctx) Out { return Out{} }\n")
+	if code, _, se := e.run("gen", "./noext"); code != 1 || !strings.Contains(se, "context") {
+		bad = append(bad, fmt.Sprintf("extend function for the element pair needs a context the calling method lacks: exit %d: %s", code, firstLine(se)))
+	}
+	// with the context available both are called
+	e.write("okdecl/in.go", "package okdecl\n\n// goverter:converter\n// goverter:arg:context:regex ^ctx\ntype C interface {\n\tConvert(source []In, ctxA Ctx) []Out\n\tInner(source In, ctxA Ctx) Out\n}\n"+types)
+	code, _, se := e.run("gen", "./okdecl")
+	if b, _ := os.ReadFile(filepath.Join(e.dir, "okdecl/generated/generated.go")); code != 0 || !strings.Contains(string(b), "c.Inner(source[i], context)") {
+		bad = append(bad, "declared method with an available context is not called for the element pair: "+firstLine(se))
+	}
+	// the pointee pair of a method with a default constructor is served by the extend function / the declared method
+	e.write("defext/in.go", "package defext\n\n// goverter:converter\n// goverter:extend Ext\ntype C interface {\n\t// goverter:default New\n\tConvert(source In) *Out\n}\n"+types+"func Ext(source In) Out { return Out{} }\nfunc New() *Out { return &Out{} }\n")
+	code, _, se = e.run("gen", "./defext")
+	if b, _ := os.ReadFile(filepath.Join(e.dir, "defext/generated/generated.go")); code != 0 || !strings.Contains(string(b), "defext.Ext(source)") {
+		bad = append(bad, "extend function for the pointee pair of a default-constructor method is not called: "+firstLine(se))
+	}
+	e.write("defdecl/in.go", "package defdecl\n\n// goverter:converter\ntype C interface {\n\t// goverter:default New\n\tConvert(source In) *Out\n\tInner(source In) Out\n}\n"+types+"func New() *Out { return &Out{} }\n")
+	code, _, se = e.run("gen", "./defdecl")
+	if b, _ := os.ReadFile(filepath.Join(e.dir, "defdecl/generated/generated.go")); code != 0 || !strings.Contains(string(b), "c.Inner(source)") {
+		bad = append(bad, "declared method for the pointee pair of a default-constructor method is not called: "+firstLine(se))
+	}
+	return bad, nil
+}
+
 var e2eScenarios = map[string]func(repo, dir string, vals map[string]string) ([]string, error){
+	"c06": e2eC06,
 	"c19": e2eC19,
 	"c09": e2eC09,
 	"c15": e2eC15,
